@@ -131,6 +131,9 @@ func errorPropagation(ex *Exec, frm *frame, name, g string, res []Val) {
 
 var reEntryPre = regexp.MustCompile(`^(decorator\.(Decorate|DecorateFile|Parse|ParseFile|ParseDir)|\(\*decorator\.Decorator\)\.ParseDir)#call:decorator\.\(\*Decorator\)\.\w+:(maps|objects)@`)
 
+// DecorateNode re-establishes its entry conditions, which is what lets ParseDir call it in a loop
+var reEntryKept = regexp.MustCompile(`^\(\*decorator\.Decorator\)\.(DecorateNode#ensures:(maps|objects)$|ParseDir#loop\d+-(entry|preserve)(\.\d+)?:(maps|objects)$)`)
+
 func buildC17(p *Program, tier string) ([]*Unit, []UnitError) {
 	var units []*Unit
 	var errs []UnitError
@@ -380,7 +383,7 @@ func init() {
 		Packages: []string{pkgDecorator},
 		Build:    buildC17,
 		Select: func(n string) bool {
-			if reEntryPre.MatchString(n) {
+			if reEntryPre.MatchString(n) || reEntryKept.MatchString(n) {
 				// entry preconditions carried from the package-level helpers and ParseDir to the methods they wrap
 				return true
 			}
